@@ -49,6 +49,7 @@ type SchedCfg struct {
 	FreezeAt  int     `json:"freeze_at"`
 	Probe     int     `json:"probe"`
 	TickPct   int     `json:"tick_pct,omitempty"`
+	SpinBurn  int     `json:"spin_burn,omitempty"`
 	MaxSteps  int     `json:"max_steps"`
 }
 
